@@ -186,6 +186,59 @@ contract("skgenome/tabio/seg.py::write_seg", params=dict(dframes=SeqT(TabT())), 
          checks=[("one_based_rows_under_sample_id", _chk_seg)])
 
 
+def _gen_seg_files(rng, tier, i):
+    """1..4 .cns files (sample id = file name), sometimes two files of the same name in different directories"""
+    if i >= (60 if tier == "quick" else 600):
+        return None
+    import os
+    import tempfile
+    from skgenome import tabio
+    d = tempfile.mkdtemp(prefix="verif_c20s_")
+    n = rng.randint(1, 4)
+    names = rng.sample(["tumor", "normal", "s10", "s2"], n)
+    if n > 1 and rng.random() < 0.4:
+        names[rng.randrange(1, n)] = names[0]           # run1/tumor.cns and run2/tumor.cns
+    files, tables = [], []
+    for k, nm in enumerate(names):
+        seg = _segments(rng, tier, with_cn=False)
+        sub = os.path.join(d, "run%d" % k)
+        os.makedirs(sub)
+        fn = os.path.join(sub, nm + ".cns")
+        tabio.write(seg, fn)
+        files.append(fn)
+        tables.append(seg.data)
+    return dict(files=files, names=names, tables=tables, tmp=d)
+
+
+def _call_seg_files(fn, a):
+    import shutil
+    from cnvlib import export
+    try:
+        return export.export_seg(a["files"], chrom_ids=False)
+    finally:
+        shutil.rmtree(a["tmp"], ignore_errors=True)
+
+
+def _chk_seg_files(args, res, old):
+    want = []
+    for nm, df in zip(old["names"], old["tables"]):
+        for r in df.itertuples(index=False):
+            want.append((nm, r.chromosome, r.start + 1, r.end, r.probes))
+    got = [(r[0], r[1], r[2], r[3], r[4]) for r in res.itertuples(index=False)]
+    if got != want:
+        return "export seg of files %r: %d rows %r..., expected %d rows %r..." % (
+            old["names"], len(got), got[:3], len(want), want[:3])
+    for g, (nm, df) in zip([], []):
+        pass
+    logs = [float(r.log2) for df in old["tables"] for r in df.itertuples(index=False)]
+    if any(not abs(float(a) - b) <= 1e-6 * max(1.0, abs(b)) for a, b in zip(res.iloc[:, 5], logs)):
+        return "export seg: seg.mean differs from the segments' log2"
+
+
+contract("cnvlib/export.py::export_seg", params=dict(files=ListT(Str)), bounded=True, gen=_gen_seg_files, call=_call_seg_files,
+         props=("C20",), modifies=("tmp", "files"), checks=[("every_files_segments_under_its_sample_id", _chk_seg_files)])
+
+
 # ----------------------------------------------------------------------------- multi-sample tables (files)
 def _gen_multi(rng, tier, i):
     """1..5 .cnr files over the same bins; sometimes one file has mismatching bins or a duplicate sample ID"""
@@ -205,7 +258,7 @@ def _gen_multi(rng, tier, i):
         bins.append(("chr1", pos, pos + 100, rng.choice(["A", "B", "-"])))
         pos += 100 + rng.choice([0, 50])
     fault = rng.choice([None, None, "mismatch", "dup"]) if n > 1 else None
-    ids = ["s%d" % k for k in range(n)]
+    ids = rng.sample(["tumor", "a_ctrl", "s10", "s2", "Zeta", "b", "s1"], n)     # given order is not alphabetical
     if fault == "dup":
         j = rng.randrange(1, n)
         ids[j] = ids[rng.randrange(0, j)]
